@@ -45,7 +45,10 @@ def main():
         chk = core.Check(pid, rec.get("tier", "quick"))
         chk.only_key = key
         try:
-            mod.run(chk)
+            if key.startswith("WF:"):
+                chk.wellformedness()
+            else:
+                mod.run(chk)
         except frontend.AnalysisBroken as x:
             print("ANALYSIS-BROKEN property=%s %s" % (pid, x))
             return 2
@@ -74,6 +77,13 @@ def main():
                         print("SELFTEST-REGRESSION property=%s case=%s %s" % (pid, l, d[:200]))
             return chk.finish()
         except frontend.AnalysisBroken as x:
+            try:
+                if chk.wellformedness():      # the facts are unusable because /repo is ill-formed for a numeric type
+                    chk.finish()
+                    print("ANALYSIS-BROKEN property=%s %s" % (pid, x))
+                    return 1
+            except frontend.AnalysisBroken:
+                pass
             print("ANALYSIS-BROKEN property=%s %s" % (pid, x))
             return 2
         except Exception as x:   # a crash of the checker is never a verdict
